@@ -531,25 +531,19 @@ func (p Sqlite) UpdateContactPoint(contact *alertutils.Contact) error {
 		return err
 	}
 
-	if len(contact.Slack) != 0 {
-		err := p.db.Model(&alertutils.Contact{ContactId: contact.ContactId}).Association("Slack").Clear()
-		if err != nil {
-			err = fmt.Errorf("UpdateContactPoint: unable to update contact : %v, Error=%+v", contact.ContactName, err)
-			log.Error(err.Error())
+	// The update carries the complete contact: entries that are not part of it any more must go, also when
+	// the new list is empty. All of it in one transaction, so that a rejected update leaves the contact as it was.
+	err = p.db.Transaction(func(tx *gorm.DB) error {
+		if err := tx.Model(&alertutils.Contact{ContactId: contact.ContactId}).Association("Slack").Clear(); err != nil {
 			return err
 		}
-	}
-	if len(contact.Webhook) != 0 {
-		err := p.db.Model(&alertutils.Contact{ContactId: contact.ContactId}).Association("Webhook").Clear()
-		if err != nil {
-			err = fmt.Errorf("UpdateContactPoint: unable to update contact: %v, Error=%+v", contact.ContactName, err)
-			log.Error(err.Error())
+		if err := tx.Model(&alertutils.Contact{ContactId: contact.ContactId}).Association("Webhook").Clear(); err != nil {
 			return err
 		}
-	}
-	result := p.db.Session(&gorm.Session{FullSaveAssociations: true}).Save(&contact)
-	if result.Error != nil && result.RowsAffected != 1 {
-		err := fmt.Errorf("UpdateContactPoint: unable to update contact: %v, Error=%+v", contact.ContactName, err)
+		return tx.Session(&gorm.Session{FullSaveAssociations: true}).Save(&contact).Error
+	})
+	if err != nil {
+		err = fmt.Errorf("UpdateContactPoint: unable to update contact: %v, Error=%+v", contact.ContactName, err)
 		log.Error(err.Error())
 		return err
 	}
